@@ -62,7 +62,7 @@ func buildTree(fsys hackpadfs.FS, items []treeItem) error {
 }
 
 // readOnlySubjects are the FS kinds a populated tree can be presented through.
-var populatedSubjects = []string{"mem", "kvplain", "mount", "sub", "cache", "cache-min", "tar", "tar-min", "os"}
+var populatedSubjects = []string{"mem", "kvplain", "mount", "sub", "cache", "cache-min", "tar", "tar-min", "os", "mount-deep"}
 
 type populated struct {
 	name    string
@@ -136,6 +136,33 @@ func newPopulated(env *core.Env, name string, items []treeItem) (*populated, err
 		}
 		p.fs, p.writable = mfs, true
 		return p, nil
+	case "mount-deep":
+		// everything lives in a file system mounted at a two-element mount point whose letters also start the names below
+		// it (d/n..., mp...), seen through a Sub view of that mount point
+		root, err := mem.NewFS()
+		if err != nil {
+			return nil, err
+		}
+		mfs, err := mount.NewFS(root)
+		if err != nil {
+			return nil, err
+		}
+		if err := hackpadfs.MkdirAll(mfs, "mp/den", 0o755); err != nil {
+			return nil, err
+		}
+		inner, err := mem.NewFS()
+		if err != nil {
+			return nil, err
+		}
+		if err := mfs.AddMount("mp/den", inner); err != nil {
+			return nil, err
+		}
+		v, err := hackpadfs.Sub(mfs, "mp/den")
+		if err != nil {
+			return nil, err
+		}
+		p.fs, p.writable = v, true
+		return p, buildTree(v, items)
 	case "cache", "cache-min":
 		src, err := mem.NewFS()
 		if err != nil {
